@@ -75,9 +75,34 @@ def body(h):
     h.require('next-without-for', it.error_num == 1)
     impl.execute(b'F!=RND')
     h.require('random-sequence-restarts', bytes_eq(list(impl.scalars._vars[b'F!']), fresh))
+    # an explicit OPTION BASE set now must survive ERASE of the last array (no stale "set by DIM" flag)
+    impl.execute(b'ERASE Q%')
+    impl.execute(b'OPTION BASE 1: DIM W%(2): ERASE W%')
+    impl.execute(b'OPTION BASE 0')
+    h.require('no-stale-implicit-base-flag', it.error_num == DUPDEF)
+    return [it.error_num]
+
+
+def body_in_handler(h):
+    """CLEAR / NEW / RUN n executed inside an active error handler: no pending RESUME is left"""
+    cmd = h.params['cmd']
+    prog = [b'10 ON ERROR GOTO 100', b'20 ERROR 9', b'30 END', b'100 ' + cmd, b'110 END', b'200 END']
+    impl = session.mk_impl(h)
+    for l in prog:
+        impl.execute(l)
+    impl.execute(b'Z%=0')
+    z = h.bytes('z', 2)
+    impl.scalars._vars[b'Z%'][:] = z
+    impl.execute(b'GOTO 10')
+    it = impl.interpreter
+    impl.execute(b'RESUME NEXT')
+    h.require('resume-without-error-after-reset', it.error_num == 20)
     return [it.error_num]
 
 
 def cases(tier):
-    return [Case('after-' + c.decode().replace(' ', '-').lower(), body, params={'cmd': c})
-            for c in (b'CLEAR', b'NEW', b'RUN 900')]
+    cs = [Case('after-' + c.decode().replace(' ', '-').lower(), body, params={'cmd': c})
+          for c in (b'CLEAR', b'NEW', b'RUN 900')]
+    cs += [Case('in-handler-' + c.decode().replace(' ', '-').lower(), body_in_handler, params={'cmd': c})
+           for c in (b'CLEAR', b'RUN 200')]
+    return cs
